@@ -256,6 +256,58 @@ theorem fit_count_ok (st : Sspoc) (nFeat : Nat) (refit : Bool) (mag : List Rat) 
     · exact fun h => update_count_ok_gen _ _ _ _ _ _ hmag h
     · exact fun h => update_count_ok_gen _ _ _ _ _ _ hmag h
 
+/-- what a history must satisfy for the count law: magnitudes come one per sensor, and fits are accepted (a REJECTED fit has already
+replaced the coefficients and emptied the selection while `n_sensors` keeps the rejected request – same family as F11).  Updates may
+be accepted, rejected by the argument checks, or refused by the classifier. -/
+def SspocOpOK (st : Sspoc) : SspocOp → Prop
+  | .fit nf r mag d => mag.length = nf ∧ (st.fit nf r mag d).2 = none
+  | .update _ _ _ mag => mag.length = st.nFeat
+  | .updateRefused _ _ mag => mag.length = st.nFeat
+
+def SspocAllOK : Sspoc → List SspocOp → Prop
+  | _, [] => True
+  | st, op :: ops => SspocOpOK st op ∧ SspocAllOK (st.step op).1 ops
+
+/-- **C08 (reported count, one call)** – accepted, rejected or refused -/
+theorem sspoc_step_countOk (st : Sspoc) (op : SspocOp) (h : st.CountOk) (hop : SspocOpOK st op) :
+    (st.step op).1.CountOk := by
+  cases op with
+  | fit nf r mag d =>
+    simp only [Sspoc.step]
+    exact fit_count_ok st nf r mag d hop.1 hop.2
+  | update n thr xy mag =>
+    simp only [Sspoc.step]
+    cases he : (st.updateSensors n thr xy mag none).2 with
+    | none => exact update_count_ok st n thr xy mag hop he
+    | some e =>
+      have := update_rejected_unchanged st n thr xy mag (by rw [he]; simp)
+      rw [this]; exact h
+  | updateRefused n thr mag =>
+    simp only [Sspoc.step]
+    exact updateRefused_count_ok st n thr mag hop h
+
+/-- **C08 (reported count, every history).** From a freshly constructed model, after any sequence of accepted fits and of
+`update_sensors` calls of any kind (accepted, rejected, refit refused by the classifier), the reported `n_sensors` equals the
+number of selected sensors. -/
+theorem sspoc_run_countOk (st : Sspoc) (ops : List SspocOp) (h : st.CountOk) (hall : SspocAllOK st ops) :
+    (st.run ops).CountOk := by
+  induction ops generalizing st with
+  | nil => simpa [Sspoc.run] using h
+  | cons op ops ih =>
+    have : (st.run (op :: ops)) = ((st.step op).1).run ops := by simp [Sspoc.run]
+    rw [this]
+    exact ih _ (sspoc_step_countOk st op h hall.1) hall.2
+
+theorem sspoc_init_countOk (ns : Option PyCount) (thr : Option Rat) : (Sspoc.init ns thr).CountOk := by
+  intro hf
+  simp [Sspoc.init] at hf
+
+example : SspocAllOK (Sspoc.init (some (.int 2)) none)
+    [.fit 4 true [3, 1, 2, 0] [0, 2], .updateRefused (some (.int 3)) none [3, 1, 2, 0], .update (some (.int 9)) none false [3, 1, 2, 0],
+     .update none (some 2) true [3, 1, 2, 0]] := by
+  simp only [SspocAllOK, SspocOpOK]
+  decide
+
 example : topN [1, 3, 3, 0, 2] 3 = [1, 2, 4] := by decide
 example : threshSel [1, 3, 0, 2] 2 = [1, 3] := by decide
 
